@@ -39,7 +39,9 @@ pub mod shims {
     pub struct SubjectAttribute { pub id: u8 }
     pub struct Identifier { pub x: Ghost<int> }
     pub struct CfgSubjectAttributes { pub x: u8 }
-    impl CfgSubjectAttributes { #[verifier::external_body] pub fn to_generic(&self) -> HashMap<SubjectAttribute, String> { unimplemented!() } }
+    // config::SubjectAttributes::to_generic (verified in unit cfgwire): the map of the attributes that are set
+    pub uninterp spec fn subject_generic(s: CfgSubjectAttributes) -> HashMap<SubjectAttribute, String>;
+    impl CfgSubjectAttributes { #[verifier::external_body] pub fn to_generic(&self) -> (r: HashMap<SubjectAttribute, String>) ensures r == subject_generic(*self) { unimplemented!() } }
     impl KeyType { #[verifier::external_body] pub fn to_string(&self) -> (r: String) ensures r@ == key_type_text(*self) { unimplemented!() } }
     pub uninterp spec fn key_type_text(k: KeyType) -> Seq<char>;
     pub struct Hook { pub hook_type: std::collections::HashSet<crate::config::HookType>, pub id: Ghost<int> }
@@ -135,6 +137,9 @@ pub mod cfgshim {
     pub uninterp spec fn crt_key_type(a: Certificate) -> Option<KeyType>;
     pub uninterp spec fn crt_name_format(a: Certificate, c: Config) -> Option<Seq<char>>;
     pub uninterp spec fn crt_dir(a: Certificate, c: Config) -> Seq<char>;
+    pub uninterp spec fn crt_identifiers(a: Certificate) -> Option<Seq<Identifier>>;
+    pub uninterp spec fn crt_csr_digest(a: Certificate) -> Option<HashFunction>;
+    pub uninterp spec fn crt_kp_reuse(a: Certificate) -> bool;
     pub uninterp spec fn crt_renew_delay(a: Certificate, c: Config) -> Option<Duration>;
     pub uninterp spec fn crt_random_early_renew(a: Certificate, c: Config) -> Option<Duration>;
     // the texts of a list of root certificate file names
@@ -178,12 +183,15 @@ pub mod cfgshim {
             ensures match r { Ok(s) => crt_name_format(*self, *cnf) == Some(s@), Err(_) => crt_name_format(*self, *cnf) is None } { unimplemented!() }
         #[verifier::external_body]
         pub fn get_crt_dir(&self, cnf: &Config) -> (r: String) ensures r@ == crt_dir(*self, *cnf) { unimplemented!() }
+        // (verified in unit cfgwire: every configured identifier in order, the configured digest / key re-use flag or the default)
         #[verifier::external_body]
-        pub fn get_identifiers(&self) -> Result<Vec<Identifier>, Error> { unimplemented!() }
+        pub fn get_identifiers(&self) -> (r: Result<Vec<Identifier>, Error>)
+            ensures match r { Ok(v) => crt_identifiers(*self) == Some(v@), Err(_) => crt_identifiers(*self) is None } { unimplemented!() }
         #[verifier::external_body]
-        pub fn get_csr_digest(&self) -> Result<HashFunction, Error> { unimplemented!() }
+        pub fn get_csr_digest(&self) -> (r: Result<HashFunction, Error>)
+            ensures match r { Ok(d) => crt_csr_digest(*self) == Some(d), Err(_) => crt_csr_digest(*self) is None } { unimplemented!() }
         #[verifier::external_body]
-        pub fn get_kp_reuse(&self) -> bool { unimplemented!() }
+        pub fn get_kp_reuse(&self) -> (r: bool) ensures r == crt_kp_reuse(*self) { unimplemented!() }
         #[verifier::external_body]
         pub fn get_random_early_renew(&self, cnf: &Config) -> (r: Result<Duration, Error>)
             ensures match r { Ok(s) => crt_random_early_renew(*self, *cnf) == Some(s), Err(_) => crt_random_early_renew(*self, *cnf) is None } { unimplemented!() }
